@@ -341,7 +341,7 @@ canary('overdraft check uses >=', Portfolio, 'withdraw_funds', 'if amount > self
 canary('withdrawal rounds the cash itself', Portfolio, 'withdraw_funds', 'self.cash -= amount', 'self.cash = round(self.cash - amount, 2)')(pf_withdraw)
 
 
-@harness('Portfolio.transact_asset', props=['C01', 'C02', 'C03', 'C15'], layer='L1', functions=PF_FUNCS)
+@harness('Portfolio.transact_asset', props=['C01', 'C02', 'C03', 'C15'], also=['C05'], layer='L1', functions=PF_FUNCS)
 def pf_transact(c):
     """one fill through Portfolio -> PositionHandler -> Position (inline): cash, holdings, mark, history, frame;
        timestamp earlier than the clock -> ValueError and nothing changes"""
@@ -373,7 +373,7 @@ def pf_transact(c):
         return
     snap1 = P.snapshot()
     total = p * q + k
-    c.ob('cash-debited-once-by-price-times-qty-plus-commission', EQ(pf.cash, cash0 - total), props=['C01'])
+    c.ob('cash-debited-once-by-price-times-qty-plus-commission', EQ(pf.cash, cash0 - total), props=['C01', 'C05'])
     c.ob('cash-is-not-rounded', EQ(pf.cash, spec.cash), props=['C01'])
     c.ob('history-one-fill-event-rounded-amount-and-balance', events_equal(c, pf.history, spec.events), props=['C01'])
     c.ob('quantity-adds-fill', EQ(snap1.qty(a), snap0.qty(a) + q), props=['C02'])
